@@ -12,8 +12,9 @@
 (* Per step: (1) observed cluster state updated, MultiContract evaluated on   *)
 (* it -> "PROP:<clause>"; (2) MultiCore stepped alongside and compared ->     *)
 (* "MODEL:<action>:<field>"; while in sync the deviations exercised by the    *)
-(* step are collected.  Output per trace: <<"V", id, verdict, pos>> and       *)
-(* <<"M", id, first model mismatch | "none", pos, exercised deviations>>.     *)
+(* step are collected.  Output: <<"P", id, clause, step, model in sync,        *)
+(* exercised>> once per clause found false, then <<"V", id, ACCEPT | PROP |   *)
+(* MODEL:.., pos>> and <<"M", id, first mismatch | "none", pos, exercised>>.  *)
 EXTENDS Integers, Sequences, FiniteSets, TLC, Json, IOUtils, Bags, MultiContract
 
 Traces == JsonDeserialize(IOEnv.TRACE_FILE)
@@ -69,11 +70,19 @@ InitFor(T) ==
     /\ mnode = [n \in 1..T.n |-> Node0(n)]
     /\ mmsgs = EmptyBag /\ mfuts = <<>> /\ ms = MS0
     /\ oLog = [n \in 1..T.n |-> <<>>] /\ oCommit = [n \in 1..T.n |-> 0] /\ oApp = [n \in 1..T.n |-> <<>>]
-    /\ oFuts = <<>> /\ subm = {} /\ bad = ""
+    /\ oFuts = <<>> /\ subm = {} /\ bad = {}
 
 Init == ti = 1 /\ InitFor(Tr)
 
 \* ---- contract on the observed execution -------------------------------------
+\* exercised deviations as a bit mask over the positions in Tr.dev (TLC wraps long printed values)
+RECURSIVE MaskOf(_, _)
+MaskOf(u, i) == IF i > Len(Tr.dev) THEN 0 ELSE (IF Tr.dev[i] \in u THEN 2 ^ (i - 1) ELSE 0) + MaskOf(u, i + 1)
+
+\* every clause found false for the first time is reported with the model status AFTER this step:
+\*   <<"P", id, clause, step, model still in sync, exercised deviations>>
+Report(new, pos, st) == \A c \in new : PrintT(<<"P", Tr.id, c, pos, st.sync, MaskOf(st.used, 1)>>)
+
 ObsStep(s) ==
     LET n == s.node
         touched == s.a # "drop"
@@ -83,13 +92,14 @@ ObsStep(s) ==
         sb2 == IF s.a \in {"submit", "forward"} THEN subm \cup {s.c} ELSE subm
         f2 == [k \in 1..Len(s.futs) |-> [cmd |-> s.futs[k][1], idx |-> s.futs[k][2]]]
         futStable == \A k \in 1..Len(oFuts) : oFuts[k].idx # Pending => (k <= Len(f2) /\ f2[k].idx = oFuts[k].idx)
+        falseNow == (IF ~Stability(oLog, oCommit, lg2, cm2) THEN {"stability"} ELSE {})
+                    \cup (IF ~Agreement(lg2, cm2) THEN {"agreement"} ELSE {})
+                    \cup (IF ~Validity(lg2, cm2, sb2) THEN {"validity"} ELSE {})
+                    \cup (IF ~FutureTruth(lg2, cm2, f2) THEN {"future_truth"} ELSE {})
+                    \cup (IF ~futStable THEN {"future_changed"} ELSE {})
     IN /\ oLog' = lg2 /\ oCommit' = cm2 /\ oApp' = ap2 /\ oFuts' = f2 /\ subm' = sb2
-       /\ bad' = IF ~Stability(oLog, oCommit, lg2, cm2) THEN "PROP:stability"
-                 ELSE IF ~Agreement(lg2, cm2) THEN "PROP:agreement"
-                 ELSE IF ~Validity(lg2, cm2, sb2) THEN "PROP:validity"
-                 ELSE IF ~FutureTruth(lg2, cm2, f2) THEN "PROP:future_truth"
-                 ELSE IF ~futStable THEN "PROP:future_changed"
-                 ELSE ""
+       /\ bad' = bad \cup falseNow
+       /\ Report(falseNow \ bad, l, ms')
 
 \* ---- the implementation model stepped alongside -----------------------------
 Fail(what) == /\ ms' = [ms EXCEPT !.sync = FALSE, !.mism = what, !.mpos = l]
@@ -106,6 +116,12 @@ Compare(tag, n, r, fs, obs, outb, s, consumed, exercised) ==
                       (+) outb
          /\ mfuts' = fs /\ ms' = [ms EXCEPT !.used = @ \cup exercised]
 
+\* a deviation is exercised by a step iff switching it off alone changes the observable outcome
+\* (log entries compared without the tid component, which only the corrected acceptor fills in)
+ProjD(ns) == [Proj(ns) EXCEPT !.log = [i \in 1..Len(ns.log) |-> <<ns.log[i][1], ns.log[i][2]>>]]
+OutD(o) == [i \in 1..Len(o) |-> [o[i] EXCEPT !.log = [k \in 1..Len(@) |-> <<@[k][1], @[k][2]>>]]]
+Differs(a, b) == ProjD(a.ns) # ProjD(b.ns) \/ OutD(a.out) # OutD(b.out) \/ a.res # b.res \/ a.cancel # b.cancel
+
 ModelStep(s) ==
     IF ~ms.sync THEN UNCHANGED <<mnode, mmsgs, mfuts, ms>>
     ELSE
@@ -115,31 +131,27 @@ ModelStep(s) ==
            ELSE /\ mmsgs' = mmsgs (-) SetToBag({m}) /\ UNCHANGED <<mnode, mfuts, ms>>
       [] s.a = "start" ->
            \E obs \in {ObsOf(s.post)}, outb \in {OutBag(s.out)}, r \in {C!Start(mnode[n], n)} :
-           Compare("start", n, r, mfuts, obs, outb, s, EmptyBag, { d \in TDev : CX(d)!Start(mnode[n], n) # r })
+           Compare("start", n, r, mfuts, obs, outb, s, EmptyBag, { d \in TDev : Differs(CX(d)!Start(mnode[n], n), r) })
       [] s.a = "submit" ->
            \E obs \in {ObsOf(s.post)}, outb \in {OutBag(s.out)},
               r \in {C!Submit(mnode[n], n, s.c, Len(mfuts) + 1)} :
            Compare("submit", n, r, Resolve(Append(mfuts, [cmd |-> s.c, idx |-> Pending]), r.res, 1), obs, outb, s,
-                   EmptyBag, { d \in TDev : CX(d)!Submit(mnode[n], n, s.c, Len(mfuts) + 1) # r })
+                   EmptyBag, { d \in TDev : Differs(CX(d)!Submit(mnode[n], n, s.c, Len(mfuts) + 1), r) })
       [] s.a = "forward" ->
            \E obs \in {ObsOf(s.post)}, outb \in {OutBag(s.out)}, r \in {C!HForward(mnode[n], n, m)} :
            Compare("forward", n, r, Resolve(mfuts, r.res, 1), obs, outb, s, EmptyBag,
-                   { d \in TDev : CX(d)!HForward(mnode[n], n, m) # r })
+                   { d \in TDev : Differs(CX(d)!HForward(mnode[n], n, m), r) })
       [] s.a = "deliver" ->
            IF ~BagIn(m, mmsgs) THEN Fail("MODEL:" \o m.t \o ":unknown_message")
            ELSE IF m.dst # n THEN Fail("MODEL:" \o m.t \o ":wrong_node")
            ELSE \E obs \in {ObsOf(s.post)}, outb \in {OutBag(s.out)}, r \in {C!Handle(mnode[n], m)} :
                 Compare(m.t, n, r, Resolve(mfuts, r.res, 1), obs, outb, s, SetToBag({m}),
-                        { d \in TDev : CX(d)!Handle(mnode[n], m) # r })
+                        { d \in TDev : Differs(CX(d)!Handle(mnode[n], m), r) })
       [] OTHER -> Fail("MODEL:unknown_action")
-
-\* exercised deviations as a bit mask over the positions in Tr.dev (TLC wraps long printed values)
-RECURSIVE UsedMask(_)
-UsedMask(i) == IF i > Len(Tr.dev) THEN 0 ELSE (IF Tr.dev[i] \in ms.used THEN 2 ^ (i - 1) ELSE 0) + UsedMask(i + 1)
 
 Finish(verdict, pos) ==
     /\ PrintT(<<"V", Tr.id, verdict, pos>>)
-    /\ PrintT(<<"M", Tr.id, ms.mism, ms.mpos, UsedMask(1)>>)
+    /\ PrintT(<<"M", Tr.id, ms.mism, ms.mpos, MaskOf(ms.used, 1)>>)
     /\ ti' = ti + 1
     /\ IF ti < NT
        THEN LET T2 == Traces[ti + 1] IN
@@ -148,21 +160,21 @@ Finish(verdict, pos) ==
             /\ mmsgs' = EmptyBag /\ mfuts' = <<>> /\ ms' = MS0
             /\ oLog' = [n \in 1..T2.n |-> <<>>] /\ oCommit' = [n \in 1..T2.n |-> 0]
             /\ oApp' = [n \in 1..T2.n |-> <<>>]
-            /\ oFuts' = <<>> /\ subm' = {} /\ bad' = ""
+            /\ oFuts' = <<>> /\ subm' = {} /\ bad' = {}
        ELSE UNCHANGED <<l, mnode, mmsgs, mfuts, ms, oLog, oCommit, oApp, oFuts, subm, bad>>
 
+ProgressFails == Tr.mode = "progress" /\ ~ProgressAll(oLog, oCommit, oApp, oFuts, Range(Tr.pcmds))
 EndVerdict ==
-    IF Tr.mode = "progress" /\ ~ProgressAll(oLog, oCommit, oApp, oFuts, Range(Tr.pcmds))
-    THEN "PROP:progress_established_leader"
+    IF bad # {} \/ ProgressFails THEN "PROP"
     ELSE IF ms.mism # "none" THEN ms.mism
     ELSE "ACCEPT"
 
 Next ==
     /\ ti <= NT
-    /\ IF bad # "" THEN Finish(bad, l - 1)
-       ELSE IF l > Len(Tr.steps)
-            THEN Finish(EndVerdict, IF ms.mism # "none" /\ EndVerdict = ms.mism THEN ms.mpos ELSE l - 1)
-       ELSE \E s \in {Tr.steps[l]} : ObsStep(s) /\ ModelStep(s) /\ l' = l + 1 /\ ti' = ti
+    /\ IF l > Len(Tr.steps)
+       THEN /\ (ProgressFails => Report({"progress_established_leader"}, l - 1, ms))
+            /\ Finish(EndVerdict, IF ms.mism # "none" THEN ms.mpos ELSE l - 1)
+       ELSE \E s \in {Tr.steps[l]} : ModelStep(s) /\ ObsStep(s) /\ l' = l + 1 /\ ti' = ti
 
 Spec == Init /\ [][Next]_vars
 =============================================================================
